@@ -271,6 +271,17 @@ func OpenReadableWritable(rw ReaderAtWriterAt, roots []cid.Cid, opts ...carv2.Op
 	); err != nil {
 		return nil, err
 	}
+	// Resume accepts the given roots in any order; the roots of the CAR are the
+	// ones in the file, in the order the file has them.
+	dr, err := internalio.NewOffsetReadSeeker(sc.reader, 0)
+	if err != nil {
+		return nil, err
+	}
+	header, err := carv1.ReadHeader(dr, sc.opts.MaxAllowedHeaderSize)
+	if err != nil {
+		return nil, err
+	}
+	sc.roots = header.Roots
 	return sc, nil
 }
 
